@@ -140,8 +140,8 @@ Section X.
   Variable prime : request -> request.
   Variable override : request -> option (bytes * option bytes).
   Variable negotiate : request -> fatx -> option (N * bytes).
-  Variable vary_tuple : request -> tuple.
-  Variable vary_header : request -> fatx -> list (bytes * bytes).
+  Variable vary_tuple : request -> option (bytes * option bytes) -> tuple.
+  Variable vary_header : request -> option (bytes * option bytes) -> fatx -> list (bytes * bytes).
   Variable clear_alias : request -> option request.
 
   (** the repaired [handle_vary_missing] ([fix_vary = true]); the other repairs are parameters *)
@@ -174,13 +174,13 @@ Section X.
       (found = None \/ ok && get_or_head (rq_method r) = false) ->
       cache_change c1 now r ov ok k found x
         (xc_insert (insert_key (if fix_ovkey then lookup_req r ov else r) (fx_fat x))
-                   {| ex_vars := [mkVar (vary_tuple r) x now]; ex_created := now; ex_life := lifetime_x x |} c1)
+                   {| ex_vars := [mkVar (vary_tuple r ov) x now]; ex_created := now; ex_life := lifetime_x x |} c1)
   | CC_push e :
       found = Some e -> ok && get_or_head (rq_method r) = true -> ims_hit r e = false ->
-      xv_find (vary_tuple r) (ex_vars e) = None ->
+      xv_find (vary_tuple r ov) (ex_vars e) = None ->
       may_store_x true sfilter (rq_method r) x = true ->
       cache_change c1 now r ov ok k found x
-        (xc_insert k {| ex_vars := mkVar (vary_tuple r) x now :: ex_vars e; ex_created := now;
+        (xc_insert k {| ex_vars := mkVar (vary_tuple r ov) x now :: ex_vars e; ex_created := now;
                         ex_life := min_life (option_map (fun l => l - (now - ex_created e)) (ex_life e)) (lifetime_x x) |} c1).
 
   Lemma serve_cache_update c hs now r0 st' rp lg :
@@ -204,7 +204,7 @@ Section X.
     - destruct (ok && get_or_head (rq_method r)) eqn:G.
       + fold (ims_hit r e) in H. destruct (ims_hit r e) eqn:I.
         * inversion H; subst. cbn [fst]. apply CC_same.
-        * destruct (xv_find (vary_tuple r) (ex_vars e)) as [v|] eqn:V.
+        * destruct (xv_find (vary_tuple r ov) (ex_vars e)) as [v|] eqn:V.
           -- inversion H; subst. cbn [fst]. apply CC_same.
           -- unfold vary_missingX in H. destruct (compute hs r ov ok) as [[x hs'] lg'] eqn:C. cbn [fst].
              destruct (may_store_x true sfilter (rq_method r) x) eqn:A; inversion H; subst; cbn [fst].
@@ -488,8 +488,8 @@ Section Once.
   Variable prime : request -> request.
   Variable override : request -> option (bytes * option bytes).
   Variable negotiate : request -> fatx -> option (N * bytes).
-  Variable vary_tuple : request -> tuple.
-  Variable vary_header : request -> fatx -> list (bytes * bytes).
+  Variable vary_tuple : request -> option (bytes * option bytes) -> tuple.
+  Variable vary_header : request -> option (bytes * option bytes) -> fatx -> list (bytes * bytes).
   Variable clear_alias : request -> option request.
 
   Notation finishR := (finishX fix_svary negotiate vary_header).
@@ -507,7 +507,7 @@ Section Once.
   Notation r := (prime r0).
   Notation ov := (override r0).
   Notation lr := (lookup_req (prime r0) (override r0)).
-  Notation t := (vary_tuple (prime r0)).
+  Notation t := (vary_tuple (prime r0) (override r0)).
   Notation k := (insert_key (lookup_req (prime r0) (override r0)) (fx_fat x)).
 
   (** error responses (sanitize failed) are never admitted *)
@@ -643,7 +643,7 @@ Section Once.
     (ims_on = false \/ header (B "if-modified-since") r = None) ->
     snd (serveR (c, hs) tm r0) = [] /\ snd (fst (fst (serveR (c, hs) tm r0))) = hs /\
     rx_from_cache (snd (fst (serveR (c, hs) tm r0))) = true /\
-    exists v, v_tuple v = t /\ snd (fst (serveR (c, hs) tm r0)) = finishR r (v_resp v) ims_on true false.
+    exists v, v_tuple v = t /\ snd (fst (serveR (c, hs) tm r0)) = finishR r ov (v_resp v) ims_on true false.
   Proof.
     intros (e & F & V & Hc & Hl & Hsh) HD Hok GH Hims.
     assert (Hfresh : xfresh e tm = true).
@@ -698,7 +698,7 @@ Section Once.
     tm2 <= D ->
     snd (serveR st2 tm2 r0) = [] /\ snd (fst (fst (serveR st2 tm2 r0))) = snd st2 /\
     rx_from_cache (snd (fst (serveR st2 tm2 r0))) = true /\
-    exists v, v_tuple v = t /\ snd (fst (serveR st2 tm2 r0)) = finishR r (v_resp v) ims_on true false.
+    exists v, v_tuple v = t /\ snd (fst (serveR st2 tm2 r0)) = finishR r ov (v_resp v) ims_on true false.
   Proof.
     intros Hok GH Hims Hnone C A Hb st1 st2 tm2 HD.
     pose proof (once_init c hs hs1 lg1 Hok Hnone C A) as I1. fold st1 in I1.
@@ -720,8 +720,8 @@ Section TransparencyX.
   Variable prime : request -> request.
   Variable override : request -> option (bytes * option bytes).
   Variable negotiate : request -> fatx -> option (N * bytes).
-  Variable vary_tuple : request -> tuple.
-  Variable vary_header : request -> fatx -> list (bytes * bytes).
+  Variable vary_tuple : request -> option (bytes * option bytes) -> tuple.
+  Variable vary_header : request -> option (bytes * option bytes) -> fatx -> list (bytes * bytes).
   Variable clear_alias : request -> option request.
 
   (** the handler contract of the property: the response is a function [cf] of the request (not of handler state)
@@ -732,7 +732,7 @@ Section TransparencyX.
   Hypothesis Hpure : forall hs r ov ok, fst (fst (compute hs r ov ok)) = cf r ov ok.
   Hypothesis contract : forall r ov r' ov',
     get_or_head (rq_method r) = true -> get_or_head (rq_method r') = true ->
-    vary_tuple r = vary_tuple r' -> rq_path (lookup_req r ov) = rq_path (lookup_req r' ov') ->
+    vary_tuple r ov = vary_tuple r' ov' -> rq_path (lookup_req r ov) = rq_path (lookup_req r' ov') ->
     (qmx (cf r ov true) = true -> path_query (lookup_req r ov) = path_query (lookup_req r' ov')) ->
     cf r ov true = cf r' ov' true.
   Hypothesis pref_uniform : forall r ov r' ov',
@@ -761,7 +761,7 @@ Section TransparencyX.
     | KPathQuery s i => path_query lr = (s, i)
     end.
   Definition var_okx (k : key) (v : variant) : Prop :=
-    exists r ov, get_or_head (rq_method r) = true /\ vary_tuple r = v_tuple v /\ v_resp v = cf r ov true /\
+    exists r ov, get_or_head (rq_method r) = true /\ vary_tuple r ov = v_tuple v /\ v_resp v = cf r ov true /\
                  key_okx k (lookup_req r ov) (v_resp v).
   Definition entry_okx (k : key) (e : entryx) : Prop :=
     ex_vars e <> [] /\ forall v, In v (ex_vars e) -> var_okx k v.
@@ -793,7 +793,7 @@ Section TransparencyX.
   (** what a hit returns is what the layer below would compute for this request *)
   Lemma hit_is_cf c now r ov k e c1 v :
     TInv c -> xlookup (lookup_req r ov) c now = ((k, Some e), c1) -> get_or_head (rq_method r) = true ->
-    xv_find (vary_tuple r) (ex_vars e) = Some v -> v_resp v = cf r ov true.
+    xv_find (vary_tuple r ov) (ex_vars e) = Some v -> v_resp v = cf r ov true.
   Proof.
     intros I L GH V. destruct (xlookup_cases _ _ _ _ _ _ L) as (Hk & _ & F & _ & _).
     destruct (I _ _ F) as [_ Hvars]. destruct (xv_find_in _ _ _ V) as [Hin Ht].
@@ -811,7 +811,7 @@ Section TransparencyX.
     rx_status a = rx_status c /\ rx_headers a = rx_headers c /\ rx_pad a = rx_pad c /\ rx_body a = rx_body c /\
     rx_ipad a = rx_ipad c /\ rx_identity a = rx_identity c /\ rx_stream a = rx_stream c.
 
-  Lemma finish_equiv_x r x lm1 c1 m1 lm2 c2 m2 : replyx_equiv (finishT r x lm1 c1 m1) (finishT r x lm2 c2 m2).
+  Lemma finish_equiv_x r ov x lm1 c1 m1 lm2 c2 m2 : replyx_equiv (finishT r ov x lm1 c1 m1) (finishT r ov x lm2 c2 m2).
   Proof.
     unfold finishX. rewrite !orb_true_r.
     destruct (if is_stream x then None else negotiate r x) as [[st body]|]; repeat split.
@@ -854,7 +854,7 @@ Section TransparencyX.
   Proof.
     intros H I Hims.
     set (r := prime r0) in *. set (ov := override r0) in *. set (ok := sanitize_ok r0) in *.
-    assert (HU : snd (fst (serveU (cU, hsU) now r0)) = finishT r (cf r ov ok) false false true).
+    assert (HU : snd (fst (serveU (cU, hsU) now r0)) = finishT r ov (cf r ov ok) false false true).
     { unfold serveX. cbn [negb]. fold r ov ok. destruct (compute hsU r ov ok) as [[x h] l] eqn:C.
       cbn [fst snd]. apply compute_cf in C. subst. reflexivity. }
     rewrite HU. clear HU. split.
@@ -870,7 +870,7 @@ Section TransparencyX.
       destruct (xlookup (lookup_req r ov) c now) as [[k found] c1] eqn:L.
       assert (Hmiss : forall st2 rp2 lg2,
                  missX hstate compute true ims_on true true sfilter negotiate vary_tuple vary_header c1 hs now r ov ok = (st2, rp2, lg2) ->
-                 replyx_equiv rp2 (finishT r (cf r ov ok) false false true)).
+                 replyx_equiv rp2 (finishT r ov (cf r ov ok) false false true)).
       { intros st2 rp2 lg2 M. unfold missX in M. destruct (compute hs r ov ok) as [[x hs'] lg'] eqn:C.
         apply compute_cf in C. subst x.
         destruct (may_store_x true sfilter (rq_method r) (cf r ov ok)); inversion M; subst; apply finish_equiv_x. }
@@ -882,7 +882,7 @@ Section TransparencyX.
                      | Some t => ims_fresh t (ex_created e) | None => false end) = false).
       { destruct Hims as [-> | Hh]; [reflexivity|]. fold r in Hh. rewrite Hh. destruct ims_on; reflexivity. }
       rewrite Hno in H. clear Hno.
-      destruct (xv_find (vary_tuple r) (ex_vars e)) as [v|] eqn:V.
+      destruct (xv_find (vary_tuple r ov) (ex_vars e)) as [v|] eqn:V.
       + inversion H; subst. rewrite (hit_is_cf _ _ _ _ _ _ _ _ I L GH V). apply finish_equiv_x.
       + unfold vary_missingX in H. destruct (compute hs r ov true) as [[x hs'] lg'] eqn:C. apply compute_cf in C. subst x.
         destruct (may_store_x true sfilter (rq_method r) (cf r ov true)); inversion H; subst; apply finish_equiv_x.
@@ -938,7 +938,7 @@ Section TransparencyX.
   (** an entry stored for one path / query / method class / variant is never served for another *)
   Lemma hit_same_class_x c now lr k e c1 v :
     TInv c -> xlookup lr c now = ((k, Some e), c1) -> xv_find (v_tuple v) (ex_vars e) = Some v ->
-    exists r1 ov1, get_or_head (rq_method r1) = true /\ vary_tuple r1 = v_tuple v /\ v_resp v = cf r1 ov1 true /\
+    exists r1 ov1, get_or_head (rq_method r1) = true /\ vary_tuple r1 ov1 = v_tuple v /\ v_resp v = cf r1 ov1 true /\
                    rq_path (lookup_req r1 ov1) = rq_path lr /\
                    (qmx (v_resp v) = true -> path_query (lookup_req r1 ov1) = path_query lr).
   Proof.
@@ -973,7 +973,7 @@ Section TransparencyX.
                                            | Some v => parse_ims v | None => None end else None) with
                    | Some t => ims_fresh t (ex_created e) | None => false end) = false).
     { destruct Hims as [-> | Hh]; [reflexivity|]. fold r in Hh. rewrite Hh. destruct ims_on; reflexivity. }
-    rewrite Hno. destruct (xv_find (vary_tuple r) (ex_vars e)) as [v|] eqn:V.
+    rewrite Hno. destruct (xv_find (vary_tuple r ov) (ex_vars e)) as [v|] eqn:V.
     - exfalso. pose proof (hit_is_cf _ _ _ _ _ _ _ _ I L GH V) as Ev.
       destruct (xlookup_cases _ _ _ _ _ _ L) as (_ & _ & F & _ & _). destruct (xv_find_in _ _ _ V) as [Hin _].
       pose proof (A _ _ _ F Hin) as Ad. rewrite Ev in Ad.
@@ -1010,8 +1010,8 @@ Section Histories.
   Variable prime : request -> request.
   Variable override : request -> option (bytes * option bytes).
   Variable negotiate : request -> fatx -> option (N * bytes).
-  Variable vary_tuple : request -> tuple.
-  Variable vary_header : request -> fatx -> list (bytes * bytes).
+  Variable vary_tuple : request -> option (bytes * option bytes) -> tuple.
+  Variable vary_header : request -> option (bytes * option bytes) -> fatx -> list (bytes * bytes).
   Variable clear_alias : request -> option request.
   Notation missR := (missX hstate compute true ims_on fix_ovkey fix_svary sfilter negotiate vary_tuple vary_header).
   Notation runR_state := (runX_state hstate compute true ims_on true fix_ovkey fix_clear fix_svary sfilter parse_ims sanitize_ok
@@ -1023,7 +1023,7 @@ Section Histories.
     fst (fst (fst (missR c1 hs now r ov ok))) =
       if may_store_x true sfilter (rq_method r) x
       then xc_insert (insert_key (if fix_ovkey then lookup_req r ov else r) (fx_fat x))
-                     {| ex_vars := [mkVar (vary_tuple r) x now]; ex_created := now; ex_life := lifetime_x x |} c1
+                     {| ex_vars := [mkVar (vary_tuple r ov) x now]; ex_created := now; ex_life := lifetime_x x |} c1
       else c1.
   Proof.
     unfold missX. destruct (compute hs r ov ok) as [[x hs'] lg]. cbn [fst].
